@@ -164,8 +164,17 @@ def U1_defined_attributes(rep, flow, modules):
                         open_ = True
                     else:
                         todo.append(bc)
+            # a method of a base class runs on instances of its subclasses: what any repository subclass defines is there too
+            subs, grew = [], True
+            allc = [x for mm in prog.modules.values() for x in prog._all_classes(mm)]
+            while grew:
+                grew = False
+                for x in allc:
+                    if x not in chain and x not in subs and any(b.split("[")[0].split(".")[-1] in {c.name} | {y.name for y in subs} for b in x.bases):
+                        subs.append(x)
+                        grew = True
             defined = set()
-            for k in chain:
+            for k in chain + subs:
                 defined |= set(k.methods) | set(k.class_assigns) | set(k.prop_get) | set(k.inner)
                 for st in k.node.body:
                     if isinstance(st, ast.AnnAssign) and isinstance(st.target, ast.Name):
